@@ -244,7 +244,7 @@ func checkBilinear(c pairCase, r *h.Rec) error {
 }
 
 func TestC09_Bilinear(t *testing.T) {
-	h.Prop(t, h.P{Name: "bilinear", Quick: 200, Thorough: 2000, Journal: true}, genPair, checkBilinear)
+	h.Prop(t, h.P{Name: "bilinear", Quick: 150, Thorough: 2000, Journal: true}, genPair, checkBilinear)
 }
 
 // ---------------------------------------------------------------- additivity, inverses
@@ -336,7 +336,7 @@ func checkPairAdd(c pairAddCase, r *h.Rec) error {
 }
 
 func TestC09_PairAdditive(t *testing.T) {
-	h.Prop(t, h.P{Name: "pair-additive", Quick: 100, Thorough: 1200, Journal: true}, genPairAdd, checkPairAdd)
+	h.Prop(t, h.P{Name: "pair-additive", Quick: 80, Thorough: 1200, Journal: true}, genPairAdd, checkPairAdd)
 }
 
 // ---------------------------------------------------------------- GT exponent laws
@@ -344,10 +344,16 @@ func TestC09_PairAdditive(t *testing.T) {
 type gtCase struct {
 	C    h.B // base h = g^C (32 bytes); C = 1 is the generator pairing
 	A, B h.B // exponents, any length
+	// slice flavours of the scalar arguments (see flavourNames) and whether the
+	// caller's slices are overwritten after each call
+	FlavA, FlavB int
+	Scrib        bool
 }
 
 func genGT(t *rapid.T) gtCase {
-	c := gtCase{A: drawScalarAny(t, "a"), B: drawScalarAny(t, "b")}
+	c := gtCase{A: drawScalarAny(t, "a"), B: drawScalarAny(t, "b"),
+		FlavA: rapid.IntRange(0, nFlavours-1).Draw(t, "flavA"), FlavB: rapid.IntRange(0, nFlavours-1).Draw(t, "flavB"),
+		Scrib: rapid.Bool().Draw(t, "scribble")}
 	if rapid.Bool().Draw(t, "gen") {
 		c.C = be32(big1)
 	} else {
@@ -357,7 +363,33 @@ func genGT(t *rapid.T) gtCase {
 }
 
 func checkGT(c gtCase, r *h.Rec) error {
+	if c.FlavA < 0 || c.FlavA >= nFlavours || c.FlavB < 0 || c.FlavB >= nFlavours {
+		return nil
+	}
 	r.Label("gt-laws")
+	r.Label("a-slice-" + flavourNames[c.FlavA])
+	if len(c.A) == 0 {
+		r.Label("zero-length-exponent-" + flavourNames[c.FlavA])
+	}
+	if len(c.B) == 0 {
+		r.Label("zero-length-exponent-" + flavourNames[c.FlavB])
+	}
+	if c.Scrib {
+		r.Label("scalar-slices-scribbled")
+	}
+	// exp calls ScalarMultGT with the scalar in the case's flavour; the slice
+	// must come back intact and is then overwritten before the result is read
+	exp := func(base *vh.GT, k []byte, flav int) (*vh.GT, error) {
+		a := mkArg(k, flav)
+		e, err := vh.ScalarMultGT(base, a.b)
+		if ierr := a.intact("ScalarMultGT"); ierr != nil {
+			return nil, ierr
+		}
+		if c.Scrib {
+			a.scribble()
+		}
+		return e, err
+	}
 	ntA := labelScalar(r, "a", c.A)
 	ntB := labelScalar(r, "b", c.B)
 	r.NTIf(ntA || ntB || (!trivialScalar(c.A) && !trivialScalar(c.B)))
@@ -368,7 +400,7 @@ func checkGT(c gtCase, r *h.Rec) error {
 	hm := fp12Exp(gRef, modN(cc))
 	ham := fp12Exp(hm, modN(a))
 	hbm := fp12Exp(hm, modN(b))
-	hh, err := vh.ScalarMultGT(g, c.C)
+	hh, err := exp(g, c.C, 4)
 	if err != nil {
 		return err
 	}
@@ -379,11 +411,11 @@ func checkGT(c gtCase, r *h.Rec) error {
 		r.Label("base=1")
 	}
 	hBefore := gtView(hh)
-	ha, err := vh.ScalarMultGT(hh, c.A)
+	ha, err := exp(hh, c.A, c.FlavA)
 	if err != nil {
 		return err
 	}
-	hb, err := vh.ScalarMultGT(hh, c.B)
+	hb, err := exp(hh, c.B, c.FlavB)
 	if err != nil {
 		return err
 	}
@@ -416,7 +448,7 @@ func checkGT(c gtCase, r *h.Rec) error {
 		return err
 	}
 	// (h^a)^b == h^(ab)
-	hab, err := vh.ScalarMultGT(ha, c.B)
+	hab, err := exp(ha, c.B, c.FlavB)
 	if err != nil {
 		return err
 	}
@@ -449,9 +481,24 @@ func checkGT(c gtCase, r *h.Rec) error {
 	if err := eqBytes("GT.ScalarBaseMult(b) != ScalarMultGT(g, b mod n), "+desc, gtView(new(vh.GT).ScalarBaseMult(b)), gtView(gb)); err != nil {
 		return err
 	}
-	// fixed-base table of h
-	table := vh.GenerateGTFieldTable(hh)
-	tb, err := vh.ScalarBaseMultGT(table, c.A)
+	// fixed-base table of h: built from a private copy of h that is changed
+	// right afterwards (the table must not keep a reference to its base), then
+	// used for several exponentiations
+	hcopy := copyGT(hh)
+	table := vh.GenerateGTFieldTable(hcopy)
+	if err := eqBytes("GenerateGTFieldTable changed its base, "+desc, gtView(hcopy), hBefore); err != nil {
+		return err
+	}
+	hcopy.Add(hcopy, g)
+	hcopy.SetOne()
+	targ := mkArg(c.A, c.FlavA)
+	tb, err := vh.ScalarBaseMultGT(table, targ.b)
+	if ierr := targ.intact("ScalarBaseMultGT"); ierr != nil {
+		return ierr
+	}
+	if c.Scrib {
+		targ.scribble()
+	}
 	if len(c.A) != 32 {
 		r.Label("gt-base-wrong-length")
 		if err == nil {
@@ -468,11 +515,70 @@ func checkGT(c gtCase, r *h.Rec) error {
 	if err := eqBytes("ScalarBaseMultGT(table(h), a) != ScalarMultGT(h, a), "+desc, gtView(tb), gtView(ha)); err != nil {
 		return err
 	}
-	return nil
+	// the same table again, after a failed and a successful use
+	t2arg := mkArg(be32(modN(b)), c.FlavB)
+	tb2, err := vh.ScalarBaseMultGT(table, t2arg.b)
+	if err != nil {
+		return err
+	}
+	if c.Scrib {
+		t2arg.scribble()
+	}
+	if err := eqBytes("second ScalarBaseMultGT on the same table(h), b mod n, != model h^b, "+desc, gtView(tb2), fp12Wire(hbm)); err != nil {
+		return err
+	}
+	if err := eqBytes("an earlier result of ScalarBaseMultGT changed under a later call, "+desc, gtView(tb), gtView(ha)); err != nil {
+		return err
+	}
+	// one GT object through a history: failed decode, decode of h^a, in-place
+	// product, in-place power, failed decode again, decode of h^b, SetOne,
+	// ScalarBaseMult - each result as for a fresh object
+	x := new(vh.GT)
+	if _, err := x.Unmarshal(fp12Wire(ham)[:100]); err == nil {
+		return fmt.Errorf("GT.Unmarshal accepted a 100-byte string")
+	}
+	in := mkArg(fp12Wire(ham), c.FlavA)
+	if _, err := x.Unmarshal(in.b); err != nil {
+		return fmt.Errorf("GT.Unmarshal(h^a) after a failed decode: %v", err)
+	}
+	if c.Scrib {
+		in.scribble()
+	}
+	x.Add(x, hb)
+	if err := eqBytes("history: decoded h^a times h^b, "+desc, gtView(x), fp12Wire(fp12Mul(ham, hbm))); err != nil {
+		return err
+	}
+	x.ScalarMult(x, big.NewInt(5))
+	if err := eqBytes("history: in-place GT.ScalarMult(x, 5), "+desc, gtView(x), fp12Wire(fp12Exp(fp12Mul(ham, hbm), big.NewInt(5)))); err != nil {
+		return err
+	}
+	bad := fp12Wire(hbm)
+	copy(bad[352:], be32(bnP))
+	if _, err := x.Unmarshal(bad); err == nil {
+		return fmt.Errorf("GT.Unmarshal accepted a last coordinate = p")
+	}
+	in2 := mkArg(fp12Wire(hbm), c.FlavB)
+	if _, err := x.Unmarshal(in2.b); err != nil {
+		return fmt.Errorf("GT.Unmarshal(h^b) after a failed decode: %v", err)
+	}
+	if c.Scrib {
+		in2.scribble()
+	}
+	var keep holder
+	if err := keep.twice("history: Marshal after failed+successful decode, "+desc, x.Marshal, fp12Wire(hbm)); err != nil {
+		return err
+	}
+	if err := eqBytes("history: SetOne, "+desc, gtView(x.SetOne()), oneBytes()); err != nil {
+		return err
+	}
+	if err := eqBytes("history: GT.ScalarBaseMult(3) into a used object, "+desc, gtView(x.ScalarBaseMult(big.NewInt(3))), refGT(big.NewInt(3))); err != nil {
+		return err
+	}
+	return keep.verify()
 }
 
 func TestC09_GTLaws(t *testing.T) {
-	h.Prop(t, h.P{Name: "gt-laws", Quick: 100, Thorough: 1500, Journal: true}, genGT, checkGT)
+	h.Prop(t, h.P{Name: "gt-laws", Quick: 80, Thorough: 1500, Journal: true}, genGT, checkGT)
 }
 
 // ---------------------------------------------------------------- GT single-window sweeps
